@@ -33,13 +33,14 @@ class SymEval:
     def __init__(self, hooks, what="function"):
         self.h = hooks
         self.what = what
+        self.depth = 0
 
     def fail(self, msg, e=None):
         raise Anchor("%s: %s%s" % (self.what, msg, (": " + show(e)[:90]) if e is not None else ""))
 
     # ------------------------------------------------------------------ entry
     def run(self, f, args):
-        env = dict(args)
+        env = args          # the caller may inspect the environment afterwards (out-parameters)
         try:
             return self.block(f["body"], env)
         except Return as r:
@@ -174,7 +175,13 @@ class SymEval:
                     return (a == b) == (op == "==")
                 return ("cmp", op, a, b)
             if isinstance(a, int) and isinstance(b, int) and not isinstance(a, bool):
-                return {"+": a + b, "-": a - b, "*": a * b, "<": a < b, "<=": a <= b, ">": a > b, ">=": a >= b}.get(op, NotImplemented)
+                if op == "-" and a < b:
+                    raise Panic("arithmetic underflow")
+                r2 = {"+": a + b, "-": a - b, "*": a * b, "<": a < b, "<=": a <= b, ">": a > b, ">=": a >= b, "<<": a << b if b < 64 else None,
+                      ">>": a >> b if b < 64 else None, "|": a | b, "&": a & b, "/": a // b if b else None, "%": a % b if b else None}.get(op)
+                if r2 is None:
+                    self.fail("integer operator", e)
+                return r2
             self.fail("binary operator on symbolic values", e)
         if k == "assign":
             v = self.ev(e[2], env)
@@ -246,6 +253,18 @@ class SymEval:
                 return ("fmt", [])
             if "::" in p and p.split("::")[-1][:1].isupper():
                 return ("enum", "::".join(p.split("::")[-2:]), args)
+            fn = self.h.resolve_fn(p)
+            if fn is not None and self.depth < 6:
+                ps = [q[0] for q in fn["sig"]["params"] if q[0] != "self"]
+                if len(ps) == len(args):
+                    self.depth += 1
+                    try:
+                        try:
+                            return self.block(fn["body"], dict(zip(ps, args)))
+                        except Return as r_:
+                            return r_.v
+                    finally:
+                        self.depth -= 1
             self.fail("call", e)
         if k == "mcall":
             return self.mcall(e, env)
@@ -335,6 +354,8 @@ class SymEval:
             self.fail("array repeat with symbolic length", e)
         if k == "for":
             it = self.ev(e[2], env)
+            if isinstance(it, tuple) and it[0] == "chunks":
+                it = ("list", it[1])
             if not (isinstance(it, tuple) and it[0] == "list"):
                 self.fail("for over a non-list %r" % (it,), e[2])
             for item in it[1]:
@@ -373,7 +394,7 @@ class SymEval:
             return r
         if not (isinstance(clo, tuple) and clo[0] == "closure"):
             self.fail("call of a non-closure %r" % (clo,))
-        env = dict(clo[3])
+        env = clo[3]        # closures see (and may mutate) the environment they were created in
         for p, a in zip(clo[1], args):
             if self.match_pat(p, a, env) is not True:
                 self.fail("closure parameter pattern")
@@ -383,6 +404,7 @@ class SymEval:
         recv = self.ev(e[1], env)
         m = e[2]
         args = [self.ev(a, env) for a in e[3]]
+        self.cur_env = env
         r = self.h.mcall(recv, m, args, e, self)
         if r is not NotImplemented:
             return r
@@ -393,9 +415,20 @@ class SymEval:
                 if m == "push":
                     env[name] = ("list", items + [args[0]])
                 else:
-                    if not (isinstance(args[0], tuple) and args[0][0] == "list"):
+                    a0 = args[0]
+                    if a0 == NONE:
+                        add = []
+                    elif isinstance(a0, tuple) and a0[0] == "some":
+                        add = [a0[1]]
+                    elif isinstance(a0, tuple) and a0[0] == "list":
+                        add = list(a0[1])
+                    else:
                         self.fail("extend with a non-list", e)
-                    env[name] = ("list", items + list(args[0][1]))
+                    env[name] = ("list", items + add)
+                return UNIT
+            if m == "for_each" and len(args) == 1:
+                for x in items:
+                    self.apply(args[0], [x])
                 return UNIT
             if m in ("iter", "iter_mut", "into_iter", "collect", "as_slice", "to_vec", "cloned", "copied", "as_ref", "peekable", "by_ref", "fuse"):
                 return recv
@@ -703,6 +736,14 @@ def flatten_fmt(v):
     return merged
 
 
+def _free_fns(ctx):
+    out = {}
+    for m in ctx.rspirv.modules():
+        for it in ctx.rspirv.items(m, "fn"):
+            out.setdefault(it["name"], []).append(it)
+    return out
+
+
 class Hooks:
     """default hooks: nothing domain-specific"""
 
@@ -732,6 +773,16 @@ class Hooks:
 
     def cast(self, v, ty, e):
         return NotImplemented
+
+    def resolve_fn(self, path):
+        """a free function of the analysed crate to evaluate in place (None: unknown)"""
+        ctx = getattr(self, "ctx", None)
+        if ctx is None:
+            return None
+        name = path.split("::")[-1]
+        idx = ctx.memo("free_fns", lambda: _free_fns(ctx))
+        c = idx.get(name, [])
+        return c[0] if len(c) == 1 else None
 
     def match_lit(self, v, lit):
         return NotImplemented
